@@ -36,6 +36,10 @@ pub struct TypeEntry {
     pub decode: Box<dyn Fn(&[u8]) -> Result<Vec<u8>, String>>,
     /// crate-level grouping used in reports
     pub group: &'static str,
+    /// the same value in a second serde format (JSON), and its decoder: the element codecs are
+    /// format-generic and some formats give no size hint
+    pub json: Vec<u8>,
+    pub decode_json: Box<dyn Fn(&[u8]) -> Result<(), String>>,
 }
 
 fn entry<T: Serialize + DeserializeOwned + 'static>(group: &'static str, name: &str, v: &T) -> Result<TypeEntry, String> {
@@ -45,6 +49,8 @@ fn entry<T: Serialize + DeserializeOwned + 'static>(group: &'static str, name: &
         trace,
         decode: Box::new(|b: &[u8]| dec::<T>(b).map(|v| enc(&v))),
         group,
+        json: serde_json::to_vec(v).map_err(|e| format!("{}: json: {}", name, e))?,
+        decode_json: Box::new(|b: &[u8]| serde_json::from_slice::<T>(b).map(|_| ()).map_err(|e| e.to_string())),
     })
 }
 
